@@ -28,7 +28,7 @@ ASSUMPTIONS = ['time is the agent\'s own reading of time.time_ns (virtual clock)
                'must-collect is asserted single-threaded']
 REQUIRE = {'hits_checked': 5000, 'refused_by_count': 200, 'refused_by_period': 200, 'refused_by_window': 100,
            'boundary_hits': 50, 'gated_cases': 30, 'hostile_schedules': 30,
-           'overlap_cases': 30, 'hits_while_collection_open': 30}
+           'overlap_cases': 30, 'hits_while_collection_open': 30, 'interpose_points': 15}
 T0 = 1_700_000_000_000_000_000
 MS = 1_000_000
 
@@ -47,6 +47,7 @@ def plan(tier, seed):
     specs += split_seeds('g%s' % seed, 96 * n, 4, 'gate')
     specs += split_seeds('s%s' % seed, 16 * n, 2, 'stress')
     specs += split_seeds('o%s' % seed, 64 * n, 4, 'overlap')
+    specs += split_seeds('i%s' % seed, 12 * n, 3, 'interpose')
     return specs
 
 
@@ -553,7 +554,121 @@ def case_overlap(seed, out, spec, wd):
     out.case({'fc': fc, 'fp': fp, 'k': kind, 'steps': steps}, nontrivial=open_overlaps > 0, sample=witness)
 
 
-CASES = {'hist': case_hist, 'gate': case_gate, 'stress': case_stress, 'overlap': case_overlap}
+def case_interpose(seed, out, spec, wd):
+    """Pre-emption points between the limiter's steps: after every call thread A makes on the action object (all of
+    its public methods are interposed from outside), a second thread performs a complete hit. Every point is tried."""
+    r = Rng('c04i', seed)
+    import os
+    path, mod, line = setup_host(wd, 'i')
+    base = os.path.basename(path)
+    fc = r.pick([1, 1, 2])
+    fp = r.pick([0, 1000])
+    kind = r.pick(['snapshot', 'log'])
+    cond = r.pick([None, None, 'flag'])
+    points = 0
+    k = 0
+    while k < 40:
+        plugins.reset()
+        cfg = {'fire_count': fc, 'fire_period': fp}
+        if kind == 'log':
+            cfg['log_msg'] = 'i'
+        trig = direct_trigger('tp', base, line, 'Log' if kind == 'log' else 'Snapshot', cfg, condition=cond)
+        rig = Rig(custom={}, host_dir=wd, plugins=[plugins.RecLogger()])
+        rig.install([trig])
+        action = trig.actions[0]
+        a_tid = [None]
+        calls = [0]
+        go_b, b_done = threading.Event(), threading.Event()
+        fired = [False]
+        names = []
+
+        def wrap(name, fn):
+            def inner(*a, **kw):
+                res = fn(*a, **kw)
+                if threading.get_ident() == a_tid[0] and name != 'with_location':
+                    n = calls[0]
+                    calls[0] = n + 1
+                    names.append(name)
+                    if n == k and not fired[0]:
+                        fired[0] = True
+                        go_b.set()
+                        b_done.wait(2)     # B finishes its whole hit here (or is blocked by A: then we go on)
+                return res
+            return inner
+
+        for name in dir(action):
+            if name.startswith('_'):
+                continue
+            try:
+                attr = getattr(action, name)
+            except BaseException:  # noqa
+                continue
+            if callable(attr) and not isinstance(attr, type):
+                try:
+                    setattr(action, name, wrap(name, attr))
+                except BaseException:  # noqa
+                    pass
+        logs = []
+        plugins.HOOK[0] = lambda nm, cb, payload: logs.append(1) if cb == 'log' else None
+        clock.set_virtual(T0)
+
+        def thread_a():
+            a_tid[0] = threading.get_ident()
+            mod.leaf(None, True)
+            go_b.set()
+
+        def thread_b():
+            go_b.wait(10)
+            try:
+                mod.leaf(None, True)
+            finally:
+                b_done.set()
+
+        def body():
+            ta, tb = threading.Thread(target=thread_a), threading.Thread(target=thread_b)
+            tb.start()
+            ta.start()
+            ta.join(20)
+            tb.join(20)
+            return ta.is_alive() or tb.is_alive()
+
+        try:
+            hung, exc = rig.run(body)
+        finally:
+            clock.set_virtual(None)
+            plugins.HOOK[0] = None
+        collected = len(rig.push.pushed) if kind == 'snapshot' else len(logs)
+        rig.cleanup()
+        if hung:
+            out.inconc('C04 interpose threads did not finish')
+            return
+        allowed = fc if fp == 0 else 1
+        witness = {'fire_count': fc, 'fire_period': fp, 'kind': kind, 'condition': cond,
+                   'second_hit_after_call': '%d (%s)' % (k, names[k] if k < len(names) else '-'),
+                   'calls_on_action_by_first_thread': names, 'collections': collected}
+        if fired[0]:
+            points += 1
+            if collected > allowed:
+                mech = 'ratelimit:concurrent-count-exceeded' if collected > fc else 'ratelimit:concurrent-period-violated'
+                out.violation(mech, 'a second thread hit the tracepoint right after the first thread\'s %s(): %d '
+                                    'collections, the limits allow %d' % (names[k] if k < len(names) else '?',
+                                                                          collected, allowed), witness,
+                              replay_spec(spec, seed))
+                break
+            if collected == 0:
+                out.violation('ratelimit:due-hit-not-collected', 'two hits, none collected', witness, replay_spec(spec, seed))
+                break
+        if k >= calls[0]:
+            break
+        k += 1
+    out.count('interpose_points', points)
+    out.case({'fc': fc, 'fp': fp, 'k': kind, 'c': cond}, nontrivial=points > 0,
+             sample={'fire_count': fc, 'fire_period': fp, 'kind': kind, 'condition': cond,
+                     'preemption_points_tried': points})
+
+
+CASES = {'hist': case_hist, 'gate': case_gate, 'stress': case_stress, 'overlap': case_overlap,
+         'interpose': case_interpose}
 
 
 def run_shard(spec, out):
